@@ -107,8 +107,15 @@ fn run_scenario(sc: &Value, t: &mut Tracer) {
 			}
 			let h = sim.manager.play(data).unwrap();
 			// the decoder keeps ahead: let it fill before playback is observed
-			wait_produced(&stats, if finite { len } else { 400 }, Duration::from_millis(500));
-			std::thread::sleep(Duration::from_millis(2));
+			if finite {
+				// a finite stream is decoded completely, after which the decoder thread ends
+				let t0 = std::time::Instant::now();
+				while !stats.dropped.load(std::sync::atomic::Ordering::SeqCst) && t0.elapsed() < Duration::from_secs(5) {
+					std::thread::sleep(Duration::from_micros(200));
+				}
+			} else {
+				wait_produced(&stats, 600, Duration::from_secs(5));
+			}
 			H::Stream(h)
 		}
 	}) {
